@@ -35,10 +35,14 @@ def gen_rule(rng, nslots):
                     n = rng.randrange(1, 3); bc += [ASSOC, n] + [rel() & 255 for _ in range(n)]
             elif k < 0.82 and out_len > 1:
                 bc += [DELETE]; out_len -= 1; i -= 1
+                if rng.random() < 0.12:                      # the rule ends on the DELETE: no NEXT moves the map cursor off the deleted entry
+                    return pos, ln, pre, bc + [RET_ZERO]
                 break
             else:
                 bc += [PUSH_BYTE, rng.randrange(0, 100), ATTR_SET, rng.choice((ADV_X, ATT_X))]
         bc += [NEXT]
         i += 1
+    if rng.random() < 0.05:                                  # the cursor stands on the slot after the rule: delete it
+        bc += [DELETE] + ([INSERT] if rng.random() < 0.6 else [])
     bc += rng.choice(([RET_ZERO], [PUSH_BYTE, rng.choice((0, 1, 255, 254)), POP_RET]))
     return pos, ln, pre, bc
